@@ -7,6 +7,6 @@ tier="${1:-quick}"; par="${2:-3}"; pat="${3:-*}"
 cd "$(dirname "$0")/.." || exit 3
 for d in seeded/$pat/; do
   [ -f "$d/patch.diff" ] || continue
-  prop=$(/venv/bin/python -c "import json,sys; print(json.load(open(sys.argv[1]))['breaks_property'])" "$d/meta.json")
+  prop=$(/venv/bin/python -c "import json,sys; m=json.load(open(sys.argv[1])); print(m.get('check_with', m['breaks_property']))" "$d/meta.json")
   echo "$d $prop"
 done | xargs -P "$par" -L 1 sh -c 'o=$(tools/run_mutant.sh "$PWD/$0patch.diff" "$1" '"$tier"' 2>&1); r=$(echo "$o" | tail -1); m=$(echo "$o" | grep "by mechanism" | sed "s/.*by mechanism: //" | head -1); echo "$0 $r | $m"'
